@@ -293,7 +293,11 @@ var c03Hand = []string{
 	"counter c by k\n/(a)/ { del c[$1] after 99999999999999999999h }\n", "counter c\n/(a)/ { del c }\n",
 	"counter c\n/(?P<x>a)(?P<x>b)/ { c++ }\n", "counter c\n/(/ { c++ }\n", "counter c\n/a{1000}{1000}/ { c++ }\n", "counter c\n/\\/ { c++ }\n", "counter c\n/[/ { c++ }\n",
 	"counter c\n/a/ { c = 1 / 0 }\n", "counter c\n/a/ { c = 1 % 0 }\n", "counter c\n/a/ { c = 1.0 / 0 }\n", "counter c\n/a/ { c = 1 ** 99999 }\n", "counter c\n/a/ { c = -9223372036854775808 / -1 }\n",
-	"counter c\n/a/ { c = 9223372036854775807 + 1 }\n", "counter c\n/a/ { c = 2 ** 64 }\n", "counter c\n/a/ { c = 0 ** -1 }\n", "gauge g\n/a/ { g = 1e308 * 10 }\n", "gauge g\n/a/ { g = 5 % 2.5 }\n",
+	"counter c\n/a/ { c = 9223372036854775807 + 1 }\n",
+	"gauge g\n/a/ { g = 1 << -1 }\n", "gauge g\n/a/ { g = 8 >> -3 }\n", "gauge g\n/a/ { g = 4 << 1 - 2 }\n", "gauge g\n/a/ { g = 1 << 64 }\n", "gauge g\n/a/ { g = 1 << 63 }\n",
+	"gauge g\n/a/ { g = -1 >> 70 }\n", "gauge g\n/a/ { g = 1 << 9999999999 }\n", "gauge g\n/a/ { g = 2 ** -1 }\n", "gauge g\n/a/ { g = 1 % -1 }\n", "gauge g\n/a/ { g = -9223372036854775808 % -1 }\n",
+	"gauge g\n/a/ { g = -9223372036854775808 * -1 }\n", "gauge g\n/a/ { g = 7 & -1 }\n", "gauge g\n/a/ { g = 7 | -1 ^ 3 }\n", "gauge g\n/a/ { g = ~-1 }\n", "gauge g\n/a/ { g = 1.5 ** -2.5 }\n",
+	"gauge g\n/a/ { g = 1.0 / 0.0 }\n", "gauge g\n/a/ { g = 0.0 % 0.0 }\n", "gauge g\n/a/ { g = 1e308 * 1e308 }\n", "gauge g\n/(\\d+)/ { g = $1 << -1 }\n", "gauge g\n/(\\d+)/ { g = -1 << $1 }\n", "counter c\n/a/ { c = 2 ** 64 }\n", "counter c\n/a/ { c = 0 ** -1 }\n", "gauge g\n/a/ { g = 1e308 * 10 }\n", "gauge g\n/a/ { g = 5 % 2.5 }\n",
 	"counter c\n/(\\d+)/ { c = strptime($1, \"2006\") }\n", "counter c\n/(\\d+)/ { strptime() }\n", "counter c\n/(\\d+)/ { strptime($1) }\n", "counter c\n/(\\d+)/ { strptime($1, $1) }\n", "counter c\n/(\\d+)/ { strptime($1, \"2006\", \"tz\", 4) }\n",
 	"counter c\n/(\\d+)/ { c = len() }\n", "counter c\n/(\\d+)/ { c = len(1, 2) }\n", "counter c\n/(\\d+)/ { c = tolower() }\n", "counter c\n/(\\d+)/ { c = strtol($1) }\n", "counter c\n/(\\d+)/ { c = strtol($1, 99) }\n",
 	"counter c\n/(\\d+)/ { c = timestamp(1) }\n", "counter c\n/(\\d+)/ { c = getfilename(1) }\n", "counter c\n/(\\d+)/ { settime() }\n", "counter c\n/(\\d+)/ { c = int() }\n", "counter c\n/(\\d+)/ { c = float(1, 2) }\n", "counter c\n/(\\d+)/ { c = string() }\n", "counter c\n/(\\d+)/ { c = bool(1) }\n",
@@ -307,6 +311,7 @@ var c03Hand = []string{
 var c03Snippets = []string{
 	"\"", "/", "\\", "␤", "\xff", "\xc3", "\x00", "@", "$", "..", "1e", "1.5.5", "0x", "9999999999999999999999", "1h2m3", "#", "{", "}", "(", ")", "[", "]", "!", "=~", "!~",
 	"\n", " ", "\t", ",", "++", "--", "+=", "**", "<<", "&&", "||", "~", "^", "%", "counter ", "gauge ", "histogram ", "buckets ", "by ", "as ", "limit ", "hidden ", "const ", "def ", "del ", "after ",
+	" << -1", " >> -1", " ** -1", " % 0", " / 0.0", " << 64", " & -1", "-9223372036854775808",
 	"next", "stop", "otherwise", "else", "strptime(", "subst(", "len(", "int(", "$1", "$x", "/a/", "/(/", "\"s\"", "1.5", "é", "٣", " ", "�", "1d", "1h",
 }
 
